@@ -297,7 +297,14 @@ def check_geometry(res: Result, repo, prop="C17"):
                 if a[0] == "fn" and a[1] in ("max", "min") and len(a) == 4 and {a[2], a[3]} == {o, c}:
                     hi, lo = (c, o) if positive else (o, c)
                     mp[a] = hi if a[1] == "max" else lo
-            return poly.subst(f, mp) if mp else f
+                elif a[0] == "ite" and len(a) == 4:
+                    # a value chosen by the candle's direction (`close if self.positive else open`): decided in each case
+                    cp, sw = poly._canon_polarity(pos_c)
+                    if a[1] == cp:
+                        holds = positive != sw
+                        mp[a] = a[2] if holds else a[3]
+            g = poly.subst(f, mp) if mp else f
+            return under(g, positive) if mp and g != f and any(x[0] == "ite" for x in poly.all_atoms(g)) else g
 
         ok = bool(paths)
         for p in paths:
